@@ -215,6 +215,9 @@ func c08RawJSON(c *core.Ctx) {
 // json.Unmarshal(v, &s) with s a string is known to have failed, or s is known
 // to be empty.
 func rawExcused(fd *core.FuncDecl, v *types.Var, at ast.Node) bool {
+	if rawUntouchedForStrings(fd, v) {
+		return true
+	}
 	info := fd.Pkg.TypesInfo
 	ff := core.NewFuncFlow(fd)
 	node := ff.Flow.EnclosingNode(at)
@@ -254,4 +257,48 @@ func rawExcused(fd *core.FuncDecl, v *types.Var, at ast.Node) bool {
 		}
 	}
 	return false
+}
+
+// rawUntouchedForStrings: the function tries json.Unmarshal(v, &s) with s a
+// string; evaluated for the case that this succeeds with a non-empty s — the
+// value is a JSON string with content, the only case in which escapes matter —
+// it reaches a return without reading the raw bytes anywhere else.
+func rawUntouchedForStrings(fd *core.FuncDecl, v *types.Var) bool {
+	info := fd.Pkg.TypesInfo
+	decodes := core.CallsTo(info, fd.Decl.Body, func(f *types.Func) bool { return core.IsFunc(f, "encoding/json", "", "Unmarshal") })
+	if len(decodes) != 1 || len(decodes[0].Args) != 2 || core.VarOf(info, decodes[0].Args[0]) != v {
+		return false
+	}
+	u, ok := ast.Unparen(decodes[0].Args[1]).(*ast.UnaryExpr)
+	if !ok || u.Op != token.AND {
+		return false
+	}
+	sv := core.VarOf(info, u.X)
+	if sv == nil {
+		return false
+	}
+	if b, isB := sv.Type().Underlying().(*types.Basic); !isB || b.Kind() != types.String {
+		return false
+	}
+	touched := false
+	ev := &core.AbsEval{Info: info}
+	ev.Atom = func(e ast.Expr) (any, bool) {
+		e = ast.Unparen(e)
+		if core.IsNil(info, e) {
+			return "nil", true
+		}
+		if call, ok := e.(*ast.CallExpr); ok && call == decodes[0] {
+			return "nil", true
+		}
+		switch core.VarOf(info, e) {
+		case sv:
+			return "content", true
+		case v:
+			touched = true
+			return "raw", true
+		}
+		return nil, false
+	}
+	_, reached := ev.Run(fd.Decl.Body)
+	return reached && !touched
 }
